@@ -49,7 +49,9 @@ def main(argv):
     try:
         results, meta = analyse(prop, tier, a.repo, True, a.facts)
         configs = [{"debug_assertions": True, "bodies": meta.get("bodies")}]
-        if tier == "thorough" and not a.facts:
+        # both build configurations on every run: a step moved into a `debug_assert!` or a `cfg!(debug_assertions)` arm
+        # exists in the test suite's build and not in a release build
+        if not a.facts:
             res2, meta2 = analyse(prop, tier, a.repo, False)
             meta["analysis_errors"] = meta.get("analysis_errors", []) + meta2.get("analysis_errors", [])
             configs.append({"debug_assertions": False, "bodies": meta2.get("bodies")})
